@@ -96,7 +96,7 @@ type YieldCfg struct {
 	Stall int `json:"stall"` // send loop: 20..1500 ms
 }
 
-var modes = map[string]bool{"": true, "mix": true, "nofault": true, "nodeadline": true, "ambig": true}
+var modes = map[string]bool{"": true, "mix": true, "nofault": true, "nodeadline": true, "ambig": true, "spin": true}
 
 func pick[T any](r *rand.Rand, xs ...T) T { return xs[r.Intn(len(xs))] }
 
@@ -294,8 +294,6 @@ func shrink(sc *Scenario) []any {
 		i := i
 		add(func(c *Scenario) bool { c.Breaks = append(c.Breaks[:i:i], c.Breaks[i+1:]...); return true })
 	}
-	zero := func(p *int) func(c *Scenario) bool { return nil }
-	_ = zero
 	fields := []func(c *Scenario) *int{
 		func(c *Scenario) *int { return &c.Net.Drop },
 		func(c *Scenario) *int { return &c.Net.Dup },
